@@ -228,7 +228,8 @@ def check_from_matrix(ctx, chk):
                                   show(want, 200) + " with both axes re-ordered by the class order", ctx.where(AFM))
             else:
                 expk = K if kv is K else App("list", (App("range", (App("getitem", (App("shape", (mx,)), Const(-1))),)),))
-                if same(mat, mx) and same(classes, expk):
+                alt = App("arange", (App("getitem", (App("shape", (mx,)), Const(-1))),)) if kv is not K else None   # np.arange(n) for asarray(list(range(n)))
+                if same(mat, mx) and (same(classes, expk) or (alt is not None and same(classes, alt))):
                     chk.hold("R05.2", inst, "matrix = asarray(mat), classes = %s" % show(expk, 80))
                 else:
                     chk.violation("R05.2", AFM, inst, "%s ; %s" % (show(mat, 120), show(classes, 120)), "%s ; %s" % (show(mx), show(expk, 120)), ctx.where(AFM))
